@@ -115,7 +115,13 @@ def run(ctx):
     # force_args: force passed only if not None
     fa = [st for st in walk_local(cl.node) if isinstance(st, ast.If) and norm(st.test) == 'force is not None']
     ctx.check('R1', '_close forwards an explicit force setting only', bool(fa), 'Pool._close', 'force-args', 'the force setting is not forwarded to terminate()', where=loc(cl, cl.node))
-    guards = [st for st in cl.node.body if isinstance(st, ast.If) and norm(st.test) == 'self._map_guard' and any(isinstance(x, ast.Raise) for x in st.body)]
+    # the guard may sit at the top level or inside a `with <lock>:` at the top level - what matters is that it precedes the clean-up jobs
+    top = []
+    for st in cl.node.body:
+        top.append(st)
+        if isinstance(st, ast.With):
+            top.extend(st.body)
+    guards = [st for st in top if isinstance(st, ast.If) and canon(st.test) == ('self._map_guard', True) and any(isinstance(x, ast.Raise) for x in st.body)]
     ctx.check('R4', '_close refuses to run inside Pool.run', bool(guards), 'Pool._close', 'close-inside-run', '_close can run while a run is in progress', where=loc(cl, cl.node))
     qs = [n for n in walk_local(cl.node) if isinstance(n, ast.For) and 'self._queues' in norm(n.iter) and any(last_attr(c) == 'close' for c in calls_in(n))]
     ctx.check('R1', '_close closes the result pipes and marks the pool closed', bool(qs) and any(isinstance(st, ast.Assign) and any(is_self_attr(t, '_pool_closed') for t in st.targets) for st in walk_local(cl.node)),
